@@ -14,7 +14,7 @@ target's), once, and changes nothing of the object but what is listed.
 
 `self.server.addr.send_msg(...)` is a ghost trace event ('send_msg', args); sending itself
 (encoding, NetAddr) is C06/C07's. set/map/mapa/fill, release, query, Synth.get/getn and the
-constructors are further down; setn, seti, mapn/mapan are bounded only (driver C17).
+constructors are further down; mapn/mapan: synth_node_ctors; seti is bounded only (driver C17).
 """
 import z3
 from vf.pyvc import values as VV
